@@ -28,9 +28,9 @@ type gaBlock struct {
 type GuardAlloc struct {
 	arena  []byte
 	base   uintptr
-	next   int              // next free page
-	blocks map[int]*gaBlock // first page -> block
-	owner  []int32          // page -> first page of its block (+1), 0 = none
+	next   int        // next free page
+	blocks []*gaBlock // first page -> block
+	owner  []int32    // page -> first page of its block (+1), 0 = none
 	Allocs int
 	Frees  int
 	Strict bool
@@ -51,8 +51,16 @@ func newGuardAlloc() *GuardAlloc {
 			panic(err)
 		}
 	}
-	return &GuardAlloc{arena: gaArena, base: uintptr(unsafe.Pointer(&gaArena[0])), blocks: map[int]*gaBlock{}, owner: make([]int32, gaPages), Strict: true}
+	if gaOwner == nil {
+		gaOwner = make([]int32, gaPages)
+		gaBlocks = make([]*gaBlock, gaPages)
+	}
+	return &GuardAlloc{arena: gaArena, base: uintptr(unsafe.Pointer(&gaArena[0])), blocks: gaBlocks, owner: gaOwner, Strict: true}
 }
+
+// side tables shared by successive allocators (only the range used by the previous execution is reset)
+var gaOwner []int32
+var gaBlocks []*gaBlock
 
 var gaPrev *GuardAlloc
 
@@ -62,6 +70,10 @@ func gaFresh() *GuardAlloc {
 	a := newGuardAlloc()
 	if gaPrev != nil && gaPrev.next > 0 {
 		syscall.Mprotect(a.arena[:gaPrev.next*gaPage], syscall.PROT_READ|syscall.PROT_WRITE)
+		for i := 0; i < gaPrev.next; i++ {
+			gaOwner[i] = 0
+			gaBlocks[i] = nil
+		}
 	}
 	gaPrev = a
 	return a
@@ -89,12 +101,14 @@ func (a *GuardAlloc) Malloc(n int) unsafe.Pointer {
 		a.owner[i+k] = int32(i + 1)
 	}
 	pg := a.arena[i*gaPage : (i+np)*gaPage]
-	for j := range pg {
-		pg[j] = 0xAA
-	}
 	a.Allocs++
-	// place the block at the END of its pages so overruns fault too (16-byte aligned)
+	// place the block at the END of its pages so overruns fault too (16-byte aligned); uninitialised
+	// content is a fixed pattern so that reads of it are deterministic
 	off := (np*gaPage - n) &^ 15
+	blk := pg[off:]
+	for j := range blk {
+		blk[j] = 0xAA
+	}
 	return unsafe.Pointer(&pg[off])
 }
 
